@@ -125,3 +125,7 @@ pub fn is_parked_at(name: &str) -> bool {
     let s = steps().0.lock().unwrap();
     s.trace.iter().rev().take_while(|t| !t.starts_with("released:")).any(|t| *t == format!("parked:{name}"))
 }
+
+pub fn hits(name: &str) -> u64 {
+    steps().0.lock().unwrap().hits.get(name).copied().unwrap_or(0)
+}
